@@ -61,8 +61,10 @@ def valid_op(rng, w):
     qb = w.broker.assets[w.pool.quote_token].balance if w.pool.quote_token in w.broker.assets else Decimal(0)
     if r < 0.3 or not keys:
         lo, up = raw_range(rng, w)
+        # the optional execution tick: mostly not given; when given, any integer in the tick range, the small ones (-1, 0, 1) included
+        tk = None if rng.random() < 0.75 else rng.choice((-1, 0, 1, -2, 2, w.tick + rng.randint(-50, 50)))
         return {"op": "add_by_tick", "lower": lo, "upper": up, "base": bb * Decimal(rng.choice(("0.1", "0.3", "0.5"))),
-                "quote": qb * Decimal(rng.choice(("0.1", "0.3", "0.5"))), "sqrt": None, "tick": None, "trim": True}
+                "quote": qb * Decimal(rng.choice(("0.1", "0.3", "0.5"))), "sqrt": None, "tick": tk, "trim": True}
     k = rng.choice(keys)
     if r < 0.45:
         liq = rng.choice((None, int(w.market.positions[k].liquidity) // 2, int(w.market.positions[k].liquidity) // 3, 0))
